@@ -23,6 +23,17 @@ var replayers = map[string]func(r *Run, input []byte) error{}
 var translators = map[string]func(out string) error{}
 
 func main() {
+	if len(os.Args) == 2 && os.Args[1] == "list-translators" {
+		names := make([]string, 0)
+		for k := range translators {
+			names = append(names, k)
+		}
+		sort.Strings(names)
+		for _, n := range names {
+			fmt.Println(n)
+		}
+		return
+	}
 	if len(os.Args) < 3 {
 		usage()
 	}
